@@ -197,7 +197,7 @@ func (jenny RawTypes) generateConstructor(buffer *strings.Builder, context langu
 
 	if object.Type.IsRef() {
 		referredObj, found := context.LocateObjectByRef(*object.Type.Ref)
-		if !found || !referredObj.Type.IsStruct() {
+		if !found || !context.ResolveRefs(referredObj.Type).IsStruct() {
 			return
 		}
 
